@@ -1620,6 +1620,7 @@ func (x *Exec) tryMergeRegion(st *State, fr *Frame, b *ssa.BasicBlock, c *Term) 
 			fr.env[phi.Comment] = envEntry{v: vals[pi]}
 		}
 	}
+	x.paths = savePaths // the merged region continues as a single path
 	return j, true
 }
 
